@@ -477,4 +477,49 @@ def reportWriterShape (ms : List Module) : Bool × String :=
       else if (buildWI m).isNone then (false, "out:buildWI:the-pure-reader-refuses(implicit-nets,growth,constants)")
       else (false, "out:buildBB:a-leaf-is-not-instantiated-or-declares-fewer-bits-than-connected")
 
+/-- a module of the source in the writer's shape (bare header names; ports, nets, assigns, instances in this order) -/
+def toWModA (m : Module) : Except String WModA := do
+  if m.prim then throw "a-primitive-where-a-work-module-is-expected"
+  if m.header.any (fun h => h.alias.isSome) then throw "header-port-alias"
+  if m.header.any (fun h => h.dir.isSome || h.rng.isSome) then throw "ANSI-header"
+  let rec go (its : List Item) (ps : List PDecl) (ws : List FWire) (as : List (XAtom × XAtom)) (is : List NInst) (phase : Nat) :
+      Except String (List PDecl × List FWire × List (XAtom × XAtom) × List NInst) :=
+    match its with
+    | [] => .ok (ps, ws, as, is)
+    | .portDecl d vt rng nm a :: rest =>
+      if vt.isSome then .error "port-declaration-with-net-type" else
+      if phase > 0 then .error "port-declared-after-a-net-or-instance" else go rest (ps ++ [⟨nm, d, rng, a⟩]) ws as is 0
+    | .wireDecl ty rng nm a :: rest =>
+      if phase > 1 then .error "net-declared-after-an-assign-or-instance" else go rest ps (ws ++ [⟨nm, ty, rng, a⟩]) as is 1
+    | .assign l r :: rest => if phase > 2 then .error "assign-after-an-instance" else go rest ps ws (as ++ [(l, r)]) is 2
+    | .inst md nm prs a named cs :: rest =>
+      if !named then .error "positional-port-map" else
+      match cs.mapM (fun c => c.1.map (fun p => (p, c.2))) with
+      | none => .error "positional-port-map"
+      | some conns => go rest ps ws as (is ++ [⟨nm, md, prs, a, conns⟩]) 3
+    | .defparam .. :: _ => .error "defparam"
+  let (ps, ws, as, is) ← go m.items [] [] [] [] 0
+  if ps.map (·.name) != m.header.map (·.name) then throw "body-port-declarations-differ-from-the-header-list"
+  pure ⟨⟨m.name, m.attrs, ps, ws, is⟩, as, m.params⟩
+
+def toWLeafX (m : Module) : Except String WLeafX := do
+  if m.header.any (fun h => h.alias.isSome || h.dir.isSome || h.rng.isSome) then throw "leaf-header-not-bare-names"
+  let ps ← m.items.mapM (fun it => match it with
+    | .portDecl d none rng nm _ => .ok (⟨nm, d, rng, []⟩ : PDecl)
+    | _ => .error "leaf-body-item-other-than-a-port-declaration")
+  if ps.map (·.name) != m.header.map (·.name) then throw "leaf-port-declarations-differ-from-the-header-list"
+  pure ⟨⟨m.name, ps⟩, m.attrs, m.params⟩
+
+/-- `elabDesign_hierA` on a source file (C06): the file is `top; later modules` in the writer's shape and the pure reader
+    `buildHierA` accepts it — then the REAL `elabDesign` builds exactly that table: (inside?, explanation) -/
+def reportHierDesignA (ms : List Module) : Bool × String :=
+  match ms with
+  | [] => (false, "out:empty-file")
+  | t :: rest =>
+    match toWModA t, rest.mapM (fun m => if m.prim then (toWLeafX m).map WAnyA.leaf else (toWModA m).map WAnyA.work) with
+    | .error e, _ => (false, "out:" ++ e)
+    | _, .error e => (false, "out:" ++ e)
+    | .ok m, .ok Ms =>
+      if (buildHierA m Ms).isSome then (true, "in") else (false, "out:buildHierA:" ++ whyBuildHierA m Ms)
+
 end Spydr.Verilog.Elab
